@@ -564,7 +564,28 @@ impl<'c, 'a, 'ast> Visit<'ast> for BodyVisitor<'c, 'a> {
                 }
                 syn::visit::visit_expr_cast(self, c);
             }
-            Expr::Unsafe(_) => die("unsafe block in extracted function"),
+            Expr::Unsafe(u) => {
+                // R8 (opt-in `//@ allow-unsafe`): `unsafe { B }` -> `{ B }`. The block's statements are unchanged; `use core::arch::..::X;`
+                // items directly inside it are deleted, so the intrinsic name X resolves to the template's shim (whose contract is the
+                // lane-wise semantics of the instruction: the unit's stated modelling assumption). Any other `use` inside the block is refused.
+                if !self.d.allow_unsafe {
+                    die("unsafe block in extracted function");
+                }
+                let (s, e) = self.cx.f.range(u.unsafe_token.span());
+                self.cx.edit(s, e, String::new(), 0, "R8-unsafe-block");
+                for st in &u.block.stmts {
+                    if let Stmt::Item(Item::Use(us)) = st {
+                        let (us_s, us_e) = self.cx.f.range(us.span());
+                        let t = norm_ws(&self.cx.f.text[us_s..us_e]);
+                        if t.starts_with("use core::arch::") {
+                            self.cx.edit(us_s, us_e, String::new(), 0, "R8-arch-use");
+                        } else {
+                            die(&format!("R8: unsupported `use` inside unsafe block at {}:{}", self.cx.f.rel, self.cx.f.line_of(us_s)));
+                        }
+                    }
+                }
+                self.visit_block(&u.block);
+            }
             Expr::Lit(l) if matches!(l.lit, syn::Lit::ByteStr(_)) => {
                 // R17: byte-string literal `b"ab"` -> `&[97u8, 98u8]` (the same `&'static [u8; N]` value by the language definition;
                 // Verus keeps the contents of an array literal but treats a byte-string literal as an opaque constant)
@@ -1138,6 +1159,25 @@ fn find_impls<'x>(items: &'x [Item], sel: &str, cfg: &cfgeval::Cfg, f: &SrcFile,
     }
 }
 
+/// R16 helper: the array-repeat expressions `[e; N]` of a constant initialiser (struct literal / constructor call / parenthesised)
+fn collect_repeats<'a>(e: &'a Expr, out: &mut Vec<&'a syn::ExprRepeat>) {
+    match e {
+        Expr::Repeat(r) => out.push(r),
+        Expr::Struct(s) => {
+            for fl in &s.fields {
+                collect_repeats(&fl.expr, out);
+            }
+        }
+        Expr::Paren(p) => collect_repeats(&p.expr, out),
+        Expr::Call(c) => {
+            for a in &c.args {
+                collect_repeats(a, out);
+            }
+        }
+        _ => {}
+    }
+}
+
 /// `//@include <path relative to the template>` is expanded textually
 fn expand_includes(path: &str, depth: usize) -> String {
     if depth > 8 {
@@ -1341,6 +1381,36 @@ fn main() {
                     }
                     Item::Static(x) => {
                         cx.attrs(&x.attrs, (s, e), &[]);
+                        if !idir.spec.is_empty() || idir.fold_args.is_some() {
+                            cx.vis(&x.vis);
+                        }
+                        if let Some(ty) = &idir.fold_args {
+                            // R5 applied to the literal-only arguments of the initialiser call (opt-in `fold-args=<ty>`)
+                            if let Expr::Call(c) = &*x.expr {
+                                for a in c.args.iter() {
+                                    if is_plain_lit(a) {
+                                        continue;
+                                    }
+                                    if let Some(v) = const_eval(a) {
+                                        let (as_, ae) = f.range(a.span());
+                                        let orig = const_print(a, ty);
+                                        cx.constfold.push(format!("    assert({} == {}{}) by (compute); // {} {}:{}", orig, v, ty, x.ident, f.rel, f.line_of(as_)));
+                                        cx.edit(as_, ae, format!("{}", v), 0, "R5-const-fold");
+                                    }
+                                }
+                            } else {
+                                die("fold-args: static initialiser is not a call");
+                            }
+                        }
+                        if !idir.spec.is_empty() {
+                            // R12 for a static: `static X: T = e;` -> `exec static X: T <ensures> { e }`
+                            let (ks, _) = f.range(x.static_token.span());
+                            cx.edit(ks, ks, "exec ".to_string(), 0, "R12-exec-const");
+                            let (qs, qe) = f.range(x.eq_token.span());
+                            cx.edit(qs, qe, format!("\n{}\n{{", idir.spec.join("\n")), 0, "R12-exec-const");
+                            let (ss, se) = f.range(x.semi_token.span());
+                            cx.edit(ss, se, " }".to_string(), 0, "R12-exec-const");
+                        }
                     }
                     Item::Type(x) => {
                         cx.attrs(&x.attrs, (s, e), &[]);
@@ -1464,7 +1534,14 @@ fn main() {
                 }
                 // assoc consts
                 let mut const_text = String::new();
-                for (cn, cspec) in &imd.consts {
+                for (cn0, cspec) in &imd.consts {
+                    // opt-in `//@const NAME expand-repeat` (R16): an array-repeat initialiser `[lit; N]` (both literals, N <= 64) is written
+                    // out as the explicit N-element array literal — the same value; Verus cannot evaluate `[e; N]` in a dual-mode const.
+                    let (cn, expand_repeat) = match cn0.strip_suffix(" expand-repeat") {
+                        Some(n) => (n.trim().to_string(), true),
+                        None => (cn0.clone(), false),
+                    };
+                    let cn = &cn;
                     let mut ok = false;
                     for im in &impls {
                         for ii in &im.items {
@@ -1474,6 +1551,22 @@ fn main() {
                                     let (s, e) = f.range(c.span());
                                     cx.attrs(&c.attrs, (s, e), &[]);
                                     cx.vis(&c.vis);
+                                    if expand_repeat {
+                                        let mut reps: Vec<&syn::ExprRepeat> = vec![];
+                                        collect_repeats(&c.expr, &mut reps);
+                                        for r in reps {
+                                            let n: usize = match &*r.len {
+                                                Expr::Lit(syn::ExprLit { lit: syn::Lit::Int(i), .. }) => i.base10_parse().unwrap_or_else(|_| die("expand-repeat: bad length")),
+                                                _ => die("expand-repeat: length is not an integer literal"),
+                                            };
+                                            if n > 64 || !matches!(&*r.expr, Expr::Lit(_)) {
+                                                die("expand-repeat: element must be a literal and N <= 64");
+                                            }
+                                            let el = f.slice(r.expr.span()).to_string();
+                                            let (rs, re) = f.range(r.span());
+                                            cx.edit(rs, re, format!("[{}]", vec![el; n].join(", ")), 0, "R16-repeat-literal");
+                                        }
+                                    }
                                     if !cspec.is_empty() {
                                         // R12: `const X: T = e;` -> `exec const X: T <ensures> { e }` (Verus' form of a
                                         // constant whose initialiser runs exec code and carries a postcondition)
@@ -1485,6 +1578,11 @@ fn main() {
                                         cx.edit(ss, se, " }".to_string(), 0, "R12-exec-const");
                                     }
                                     let em = emit(f, s, e, &mut cx.edits);
+                                    for ed in &cx.edits {
+                                        if ed.rule == "R16-repeat-literal" {
+                                            *rule_counts.entry(ed.rule.to_string()).or_default() += 1;
+                                        }
+                                    }
                                     const_text.push_str("    ");
                                     const_text.push_str(&em.text);
                                     const_text.push('\n');
